@@ -67,6 +67,9 @@ def plan(tier, seed):
         for tail in (False, True):
             for mid in ('s1', 's2'):
                 tasks.append(('update_special', {'family': 'move', 'pre': pre, 'tail': tail, 'mid': mid}))
+    for ded in (4, 12):
+        for tail in (False, True):
+            tasks.append(('update_special', {'family': 'move', 'pre': 0, 'tail': tail, 'mid': 's1', 'dedent': ded}))
     for w1 in WS_FORMS:
         for w2 in WS_FORMS:
             if w1 == w2:
@@ -551,19 +554,31 @@ def ob_update_special(h, shape):
         for i in range(npre):
             pre += [120, h.byte_in('x%d' % i, [97, 98, 61])] + [10]
         block = [list(b'A1 = 1\n'), list(b'B2 = 2\n'), list(b'C3 = 3\n')]
+        if shape.get('dedent'):
+            # the block is moved AND re-indented (moves are matched on trimmed lines); one line has a multi-byte character
+            block = [list('h\u00e9_1();\n'.encode()), list(b'B2 = 2;\n'), list(b'C3 = 3;\n')]
         # the stationary part is longer than the block, so the diff keeps it and the block is what moves
         anchor = list(b'm1()\nm2()\nm3()\nm4()\n')
         tail = list(b'zz\n') if shape.get('tail') else []
-        old = pre + sum(block, []) + anchor + tail
+        ind = [32] * shape.get('dedent', 0)
+        old = pre + sum([ind + ln for ln in block], []) + anchor + tail
         new = anchor + sum(block, []) + tail
         b0 = len(pre)
         authors = ['s1', shape.get('mid', 's1'), 's1']
         lay = []
         pos = b0
-        for ln, a in zip(block, authors):
-            lay.append((pos, pos + len(ln), a, 5))
-            pos += len(ln)
-        keep = {npre + 1 + i: (5 + i, authors[i]) for i in range(3)}     # old line -> (new line, session)
+        if shape.get('dedent'):
+            # a person wrote the indentation and the first bytes, a session the rest of the block
+            cut = b0 + len(ind) + 1 + h.choice(3)
+            cut = cut if char_start(old, cut) else cut + 1
+            endb = b0 + sum(len(ind) + len(ln) for ln in block)
+            lay = [(b0, cut, 'human', 5), (cut, endb, 's1', 5)]
+            keep = {}
+        else:
+            for ln, a in zip(block, authors):
+                lay.append((pos, pos + len(ln), a, 5))
+                pos += len(ln)
+            keep = {npre + 1 + i: (5 + i, authors[i]) for i in range(3)}     # old line -> (new line, session)
     else:
         w1 = WS_FORMS[shape['w1']]
         w2 = WS_FORMS[shape['w2']]
